@@ -20,7 +20,8 @@ LEVEL = "exploration"
 RULE = (
     "Cases = (C09-G2 schema with 0-2 injected rule violations — general or plug-in, any position —, generator in "
     "{dbc, can_c, cpp, nop}, entry point in {GeneratorManager.generate, `fcp generate` CLI via click's CliRunner}, "
-    "pre-existing output directory content: random files, files named like would-be outputs, *.c/*.h, a sub-directory). "
+    "pre-existing output directory content: random files, files named like would-be outputs (empty, short, or far longer than "
+    "the new contents), *.c/*.h, a sub-directory). "
     "Oracle: (a) when the reference predicate (or, where it is silent, the library's own verifier run separately) rejects: "
     "the result is Err / the command prints an error without raising, and the directory snapshot (names, bytes) is "
     "unchanged; (b) when it accepts and the plug-in returns: the set of files created or modified == the paths returned by "
@@ -89,7 +90,8 @@ def case(draw):
     gen = draw(st.sampled_from(GENERATORS))
     entry = draw(st.sampled_from(["manager", "cli"]))
     pre = draw(st.lists(st.sampled_from(PRE_NAMES), max_size=4, unique=True))
-    pre_files = {n: draw(st.sampled_from(["", "old contents\n", "#include <x>\n"])) for n in pre}
+    # stale files may be shorter or much longer than what the generator writes over them
+    pre_files = {n: draw(st.sampled_from(["", "old contents\n", "#include <x>\n", "/* stale */\n" * 6000])) for n in pre}
     missing_dir = draw(st.integers(0, 5)) == 0 and not pre_files
     return s, inj, gen, entry, pre_files, missing_dir
 
